@@ -45,13 +45,19 @@ def default_float_factory(value):  # type: (typing.Any) -> decimal.Decimal
 # TODO support for [START_PARAM_NODE_TX_MSG]
 
 
-def frame_by_plain_id(db, plain_id):
-    # type: (canmatrix.CanMatrix, int) -> typing.Optional[canmatrix.Frame]
-    """References inside a DBF file carry the plain identifier, without the standard/extended flag."""
-    for frame in db.frames:
-        if frame.arbitration_id.id == plain_id:
+def frame_by_plain_id(db, plain_id, frame_type=None):
+    # type: (canmatrix.CanMatrix, int, typing.Optional[str]) -> typing.Optional[canmatrix.Frame]
+    """References inside a DBF file carry the plain identifier and the frame type letter (S standard, X extended)."""
+    candidates = [frame for frame in db.frames if frame.arbitration_id.id == plain_id]
+    for frame in candidates:
+        if frame_type is not None and frame.arbitration_id.extended == (frame_type.strip() == 'X'):
             return frame
-    return None
+    return candidates[0] if candidates else None
+
+
+def frame_type_letter(frame):
+    # type: (canmatrix.Frame) -> str
+    return 'X' if frame.arbitration_id.extended else 'S'
 
 
 def decode_comment(text):  # type: (str) -> str
@@ -119,7 +125,7 @@ def load(f, **options):  # type: (typing.IO, **typing.Any) -> canmatrix.CanMatri
             else:
                 (bo_id, tem_s, signal_name, comment) = line.split(' ', 3)
                 comment = decode_comment(comment)
-                frame_by_plain_id(db, int(bo_id)).signal_by_name(
+                frame_by_plain_id(db, int(bo_id), tem_s).signal_by_name(
                     signal_name).add_comment(comment)
 
         if mode == 'BUDescription':
@@ -138,7 +144,7 @@ def load(f, **options):  # type: (typing.IO, **typing.Any) -> canmatrix.CanMatri
             else:
                 (bo_id, tem_s, comment) = line.split(' ', 2)
                 comment = decode_comment(comment)
-                frame = frame_by_plain_id(db, int(bo_id))
+                frame = frame_by_plain_id(db, int(bo_id), tem_s)
                 if frame:
                     frame.add_comment(comment)
 
@@ -147,7 +153,7 @@ def load(f, **options):  # type: (typing.IO, **typing.Any) -> canmatrix.CanMatri
                 mode = ''
             else:
                 (bo_id, tem_s, attrib, value) = line.split(',', 3)
-                frame_by_plain_id(db, int(bo_id)).add_attribute(
+                frame_by_plain_id(db, int(bo_id), tem_s).add_attribute(
                     attrib.replace('"', ''),
                     decode_value(value))
 
@@ -171,7 +177,7 @@ def load(f, **options):  # type: (typing.IO, **typing.Any) -> canmatrix.CanMatri
                 mode = ''
             else:
                 (bo_id, tem_s, signal_name, attrib, value) = line.split(',', 4)
-                frame_by_plain_id(db, int(bo_id))\
+                frame_by_plain_id(db, int(bo_id), tem_s)\
                     .signal_by_name(signal_name)\
                     .add_attribute(attrib.replace('"', ''), decode_value(value))
 
@@ -478,7 +484,7 @@ def dump(mydb, f, **options):
     for frame in db.frames:
         if frame.comment is not None:
             comment = frame.comment.replace("\n", " ")
-            out_str += str(frame.arbitration_id.id) + ' S "' + comment + '";\n'
+            out_str += str(frame.arbitration_id.id) + ' ' + frame_type_letter(frame) + ' "' + comment + '";\n'
 
     out_str += "[END_DESC_MSG]\n"
 
@@ -500,7 +506,7 @@ def dump(mydb, f, **options):
         for signal in frame.signals:
             if signal.comment is not None:
                 comment = signal.comment.replace("\n", " ")
-                out_str += "%d S " % frame.arbitration_id.id + signal.name + ' "' + comment + '";\n'
+                out_str += "%d %s " % (frame.arbitration_id.id, frame_type_letter(frame)) + signal.name + ' "' + comment + '";\n'
 
     out_str += "[END_DESC_SIG]\n"
     out_str += "[END_DESC]\n\n"
@@ -547,7 +553,7 @@ def dump(mydb, f, **options):
             continue
 
         for attrib, val in sorted(list(frame.attributes.items())):
-            out_str += str(frame.arbitration_id.id) + ',S,"' + attrib + '","' + val + '"\n'
+            out_str += str(frame.arbitration_id.id) + ',' + frame_type_letter(frame) + ',"' + attrib + '","' + val + '"\n'
     out_str += "[END_PARAM_MSG_VAL]\n"
 
     # signal-attributes:
@@ -558,7 +564,7 @@ def dump(mydb, f, **options):
 
         for signal in frame.signals:
             for attrib, val in sorted(list(signal.attributes.items())):
-                out_str += str(frame.arbitration_id.id) + ',S,' + signal.name + \
+                out_str += str(frame.arbitration_id.id) + ',' + frame_type_letter(frame) + ',' + signal.name + \
                     ',"' + attrib + '","' + val + '"\n'
     out_str += "[END_PARAM_SIG_VAL]\n"
     out_str += "[END_PARAM_VAL]\n"
